@@ -2386,7 +2386,10 @@ static void compile_stmt(CG *cg, ASTNode *node) {
                 emit_op(cg, OP_RET);
             }
         }
-        if (cg->code_size == 0 || cg->code[cg->code_size - 1] != OP_RET) {
+        /* implicit return unless the body ends with a top-level return (see compile_function) */
+        if (!(body && (body->type != AST_BLOCK ||
+                       (body->as.block.count > 0 &&
+                        body->as.block.statements[body->as.block.count - 1]->type == AST_RETURN)))) {
             emit_op(cg, OP_PUSH_VOID);
             emit_op(cg, OP_RET);
         }
@@ -2493,10 +2496,19 @@ static void compile_function(CG *cg, ASTNode *fn_node) {
         }
     }
 
-    /* Ensure function always returns (implicit return void) */
-    if (cg->code_size == 0 || cg->code[cg->code_size - 1] != OP_RET) {
-        /* Check last instruction - a rough check on the opcode byte.
-         * If the last emitted instruction wasn't RET, add implicit return. */
+    /* Ensure function always returns (implicit return void).  The last byte of
+     * the code is not a reliable test: it may be the RET of a return inside a
+     * nested block (control can still reach the end through another branch) or
+     * an operand byte.  Only a top-level return as the last statement, or an
+     * expression body, makes the implicit return unreachable. */
+    bool ends_with_return = false;
+    if (body && body->type == AST_BLOCK) {
+        ends_with_return = body->as.block.count > 0 &&
+            body->as.block.statements[body->as.block.count - 1]->type == AST_RETURN;
+    } else if (body) {
+        ends_with_return = true;
+    }
+    if (!ends_with_return) {
         emit_op(cg, OP_PUSH_VOID);
         emit_op(cg, OP_RET);
     }
